@@ -10,6 +10,9 @@
 #include "ccl/semantic/RSModel.h"
 #include "ccl/tools/JSON.h"
 #include "ccl/api/RSFormJA.h"
+#include "ccl/oss/OSSchema.h"
+#include "ccl/ops/EquationOptions.h"
+#include <set>
 #include <algorithm>
 #include <map>
 
@@ -426,6 +429,247 @@ static void modelCase(vh::Rng& rng, bool gapKeys) {
   emit("c10 modelstable " + tag, text1 == j2.dump(4) ? "1" : "0:" + firstDiff(text1, j2.dump(4)));
 }
 
+
+// ---------------------------------------------------------------- OSS documents (Model/JsonOss.lean)
+// The third kind of document: to_json / from_json of oss::OSSchema.
+//   c10 ossdocsave <hdr> <items> <rows>   content of the real schema (read through its accessors) -> impl: rendering of
+//                                         the REAL document, hash-ordered arrays sorted (items / layout by uid,
+//                                         equations by operand1, translation pairs by key)
+//   c10 ossdocload <fresh> <tree>         a (possibly mutated) document -> impl: none-format (nlohmann exception) |
+//                                         content of the really loaded schema + wf=<structural invariant through the API>
+//   c10 ossrt / ossstable                 end-to-end oracles (content equal after save -> text -> load; canonical second
+//                                         document identical); c10 ossstableraw: the second TEXT identical (informational)
+//   hdr:   <hex title>,<hex comment>,<hex sourceDomain>
+//   items: # | items joined by ';' (ascending uid), fields joined by ',':
+//          uid,dataType,title,alias,comment,address,subAddr,row,column,src,op     (strings in hex)
+//          src: - (null) | <hex name>:<type>:<coreHash>:<fullHash>
+//          op:  - (null) | <type>:<broken>:<outdated>:<opts>:<trs>
+//          opts: ~ (null) | # (empty) | k>v>mode>hexarg joined by '+';  trs: ~ | # | translations joined by '+', each @ | k>v joined by '/'
+//   rows:  # | child>parent>parent... joined by ';' (ExecuteOrder x ParentsOf)
+using ccl::oss::OSSchema;
+using ccl::oss::PictID;
+
+static std::string ossHdrWire(const OSSchema& o) { return vh::hex(o.title) + "," + vh::hex(o.comment) + "," + vh::hex(u8to_string(o.Src().ossDomain)); }
+static std::vector<PictID> ossUids(const OSSchema& o) {
+  std::vector<PictID> uids; for (const auto& p : o) uids.push_back(p.uid);
+  std::sort(uids.begin(), uids.end()); return uids;
+}
+static std::string ossItemsWire(const OSSchema& o) {
+  std::string out;
+  for (const auto uid : ossUids(o)) {
+    const auto& p = *o(uid);
+    if (!out.empty()) out += ";";
+    out += std::to_string(uid) + "," + std::to_string(static_cast<int>(p.dataType)) + "," + vh::hex(p.title) + "," + vh::hex(p.alias) + "," + vh::hex(p.comment) + "," +
+      vh::hex(p.lnk.address) + "," + vh::hex(p.lnk.subAddr) + ",";
+    if (const auto pos = o.Grid()(uid); pos.has_value()) out += std::to_string(pos->row) + "," + std::to_string(pos->column); else out += "?,?";
+    out += ",";
+    if (const auto* h = o.Src()(uid); h == nullptr) out += "-";
+    else out += vh::hex(u8to_string(h->desc.name)) + ":" + std::to_string(static_cast<int>(h->desc.type)) + ":" + std::to_string(h->coreHash) + ":" + std::to_string(h->fullHash);
+    out += ",";
+    if (const auto* op = o.Ops()(uid); op == nullptr) out += "-";
+    else {
+      out += std::to_string(static_cast<int>(op->type)) + ":" + (op->broken ? "1" : "0") + ":" + (op->outdated ? "1" : "0") + ":";
+      if (const auto* opts = dynamic_cast<const ops::EquationOptions*>(op->options.get()); opts == nullptr) out += "~";
+      else if (opts->empty()) out += "#";
+      else {
+        std::map<uint32_t, uint32_t> rows; for (const auto& [k, v] : *opts) rows[k] = v;
+        bool first = true;
+        for (const auto& [k, v] : rows) { if (!first) out += "+"; first = false; const auto& e = opts->PropsFor(k); out += std::to_string(k) + ">" + std::to_string(v) + ">" + std::to_string(static_cast<int>(e.mode)) + ">" + vh::hex(e.arg); }
+      }
+      out += ":";
+      if (op->translations == nullptr) out += "~";
+      else if (op->translations->empty()) out += "#";
+      else {
+        bool firstT = true;
+        for (const auto& tr : *op->translations) {
+          if (!firstT) out += "+"; firstT = false;
+          std::map<uint32_t, uint32_t> pairs; for (const auto& [k, v] : tr) pairs[k] = v;
+          if (pairs.empty()) out += "@";
+          bool first = true;
+          for (const auto& [k, v] : pairs) { if (!first) out += "/"; first = false; out += std::to_string(k) + ">" + std::to_string(v); }
+        }
+      }
+    }
+  }
+  return out.empty() ? "#" : out;
+}
+static std::string ossRowsWire(const OSSchema& o) {
+  std::string out;
+  for (const auto c : o.Graph().ExecuteOrder()) {
+    if (!out.empty()) out += ";";
+    out += std::to_string(c);
+    for (const auto p : o.Graph().ParentsOf(c)) out += ">" + std::to_string(p);
+  }
+  return out.empty() ? "#" : out;
+}
+static std::string ossContent(const OSSchema& o) { return ossHdrWire(o) + " " + ossItemsWire(o) + " " + ossRowsWire(o); }
+static void sortArrayBy(JSON& arr, const std::function<int64_t(const JSON&)>& key) {
+  if (!arr.is_array()) return;
+  std::vector<JSON> v(arr.begin(), arr.end());
+  std::stable_sort(v.begin(), v.end(), [&](const JSON& a, const JSON& b) { return key(a) < key(b); });
+  arr = JSON::array();
+  for (auto& x : v) arr += std::move(x);
+}
+// the document with its hash-ordered arrays sorted (only applied to documents the writer produced)
+static JSON ossCanon(JSON doc) {
+  sortArrayBy(doc["items"], [](const JSON& a) { return a.at("pictUID").get<int64_t>(); });
+  sortArrayBy(doc["layout"], [](const JSON& a) { return a.at("pictUID").get<int64_t>(); });
+  for (auto& it : doc["items"]) if (it.contains("attachedOperation")) {
+    auto& op = it["attachedOperation"];
+    if (op.contains("options")) sortArrayBy(op["options"]["data"], [](const JSON& a) { return a.at("operand1").get<int64_t>(); });
+    if (op.contains("translations")) for (auto& tr : op["translations"]) sortArrayBy(tr, [](const JSON& a) { return a.at(0).get<int64_t>(); });
+  }
+  return doc;
+}
+// the structural invariant of C19 (StructInv) evaluated through the public API
+static bool ossStructOk(const OSSchema& o) {
+  std::set<PictID> uids;
+  for (const auto& p : o) uids.insert(p.uid);
+  for (const auto uid : uids) {
+    const auto pos = o.Grid()(uid);
+    if (!pos.has_value() || o.Grid()(pos.value()) != std::optional<PictID>{ uid }) return false;
+    if (o.Src()(uid) == nullptr) return false;
+    const auto parents = o.Graph().ParentsOf(uid);
+    if (o.Ops()(uid) != nullptr) { if (parents.size() != 2 || parents[0] == parents[1]) return false; }
+    else if (!parents.empty()) return false;
+  }
+  std::map<PictID, std::vector<PictID>> par;
+  for (const auto& [c, p] : o.Graph().EdgeList()) { if (!uids.count(c) || !uids.count(p)) return false; par[c].push_back(p); }
+  std::map<PictID, int> color;
+  std::function<bool(PictID)> dfs = [&](PictID x) { color[x] = 1; for (const auto p : par[x]) { if (color[p] == 1) return false; if (color[p] == 0 && !dfs(p)) return false; } color[x] = 2; return true; };
+  for (const auto uid : uids) if (color[uid] == 0 && !dfs(uid)) return false;
+  return true;
+}
+static void ossDocLoad(const JSON& doc) {
+  std::string impl, fresh = "-";
+  try {
+    OSSchema g; doc.get_to(g);
+    std::set<int64_t> docUids;
+    if (doc.contains("items")) for (const auto& it : doc["items"]) if (it.contains("pictUID") && it["pictUID"].is_number_integer()) docUids.insert(it["pictUID"].get<int64_t>());
+    for (const auto& p : g) if (!docUids.count(p.uid)) fresh = std::to_string(p.uid);
+    impl = ossContent(g) + " wf=" + (ossStructOk(g) ? "1" : "0");
+  } catch (const JSON::exception&) { impl = "none-format"; }
+  catch (const std::exception&) { impl = "none-other"; }
+  emit("c10 ossdocload " + fresh + " " + render(doc), impl);
+}
+static void ossHistory(vh::Rng& rng, OSSchema& o, bool diamond) {
+  static const std::vector<std::string> strs = { "", "A", "title \xD0\xA2 \"q\"", "line1\nline2 \\", "x y" };
+  o.title = rng.pick(strs); o.comment = rng.pick(strs);
+  if (rng.chance(1, 2)) o.Src().ossDomain = to_u8string(std::string("dom/") + rng.pick(strs));
+  std::vector<PictID> known;
+  auto pick = [&]() -> PictID { return (!known.empty() && rng.chance(9, 10)) ? rng.pick(known) : 5U; };
+  if (diamond) {   // bases A, B, D; P = A + B; C = P + D
+    const auto a = o.InsertBase()->uid, b = o.InsertBase()->uid, d = o.InsertBase()->uid;
+    const auto p = o.InsertOperation(a, b)->uid;
+    const auto c = o.InsertOperation(p, d)->uid;
+    known = { a, b, d, p, c };
+  }
+  const int L = diamond ? rng.range(0, 4) : rng.range(2, 14);
+  for (int i = 0; i < L; ++i) {
+    const int r = rng.range(0, 99);
+    if (r < 28 || known.size() < 2) known.push_back(o.InsertBase()->uid);
+    else if (r < 58) { if (const auto* p = o.InsertOperation(pick(), pick()); p != nullptr) known.push_back(p->uid); }
+    else if (r < 66) { const auto t = pick(); if (o.Erase(t)) known.erase(std::remove(known.begin(), known.end(), t), known.end()); }
+    else if (r < 73) o.SetPictTitle(pick(), rng.pick(strs));
+    else if (r < 80) o.SetPictAlias(pick(), rng.pick(strs));
+    else if (r < 86) o.SetPictComment(pick(), rng.pick(strs));
+    else if (r < 92) o.SetPictLink(pick(), oss::MediaLink{ rng.chance(1, 3) ? "" : "http://a/" + std::to_string(rng.range(0, 9)), rng.pick(strs) });
+    else o.Grid().ShiftPict(pick(), rng.range(-2, 3));
+  }
+}
+// the fields a plain editing history leaves at their defaults (source handles, operation definitions, flags,
+// stored equations and translations) are set at document level: the enriched document is LOADED, and the loaded
+// schema is the object under test
+static JSON ossEnrich(vh::Rng& rng, JSON doc) {
+  static const std::vector<std::string> opTypes = { "tba", "rsMerge", "rsSynt" }, modes = { "keepSecond", "keepFirst", "createNew" }, terms = { "", "new term", "\xD1\x82" };
+  int n = 0;
+  for (auto& it : doc["items"]) {
+    ++n;
+    if (rng.chance(2, 3)) it["attachedSource"] = JSON{ {"resourceID", rng.chance(1, 5) ? std::string() : "s" + std::to_string(n) + ".trs"}, {"resourceType", rng.chance(3, 4) ? "rsDocument" : "tba"},
+                                                       {"coreHash", rng.below(100000)}, {"fullHash", rng.below(100000)} };
+    if (rng.chance(1, 5)) it["dataType"] = "tba";
+    if (!it.contains("attachedOperation")) continue;
+    auto& op = it["attachedOperation"];
+    op["operationType"] = rng.pick(opTypes); op["isBroken"] = rng.chance(1, 3); op["isOutdated"] = rng.chance(1, 3);
+    if (rng.chance(1, 2)) {
+      JSON data = JSON::array(); std::set<int> keys;
+      const int m = rng.range(0, 4);
+      for (int q = 0; q < m; ++q) { const int k = rng.range(1, 40); if (!keys.insert(k).second) continue;
+        data += JSON{ {"operand1", k}, {"operand2", rng.range(1, 40)}, {"parameters", JSON{ {"equationType", rng.pick(modes)}, {"newTerm", rng.pick(terms)} }} }; }
+      op["options"] = JSON{ {"type", "equations"}, {"data", data} };
+    }
+    if (rng.chance(1, 2)) {
+      JSON trs = JSON::array();
+      const int m = rng.range(0, 2);
+      for (int q = 0; q < m; ++q) { JSON tr = JSON::array(); std::set<int> keys; const int z = rng.range(0, 4);
+        for (int w = 0; w < z; ++w) { const int k = rng.range(1, 40); if (!keys.insert(k).second) continue; tr += JSON::array({ k, rng.range(1, 40) }); }
+        trs += tr; }
+      op["translations"] = trs;
+    }
+  }
+  return doc;
+}
+// documents the writer does not produce
+static JSON ossMutate(vh::Rng& rng, JSON doc) {
+  auto& items = doc["items"]; auto& conns = doc["connections"];
+  auto anyUid = [&]() -> int64_t { return items.empty() ? 7 : items[rng.below(static_cast<uint32_t>(items.size()))]["pictUID"].get<int64_t>(); };
+  auto opUids = [&]() { std::vector<int64_t> v; for (const auto& it : items) if (it.contains("attachedOperation")) v.push_back(it["pictUID"].get<int64_t>()); return v; };
+  const int kind = rng.range(0, 17);
+  switch (kind) {
+  case 0: { static const char* keys[] = { "type", "title", "comment", "sourceDomain", "items", "layout", "connections" }; doc.erase(keys[rng.range(0, 6)]); break; }
+  case 1: if (!items.empty()) { static const char* keys[] = { "pictUID", "dataType", "title", "alias", "comment", "link", "position", "attachedSource", "attachedOperation" };
+            items[rng.below(static_cast<uint32_t>(items.size()))].erase(keys[rng.range(0, 8)]); } break;
+  case 2: if (!items.empty()) { auto& it = items[rng.below(static_cast<uint32_t>(items.size()))];
+            static const char* sub[] = { "link", "position", "attachedSource", "attachedOperation" }; static const std::vector<std::vector<std::string>> keys = {
+              { "address", "subAddr" }, { "row", "column" }, { "resourceID", "resourceType", "coreHash", "fullHash" }, { "operationType", "isBroken", "isOutdated", "options", "translations" } };
+            const int s = rng.range(0, 3); if (it.contains(sub[s])) it[sub[s]].erase(rng.pick(keys[static_cast<size_t>(s)])); } break;
+  case 3: conns += JSON::array({ anyUid(), 424242 }); break;                          // dangling parent
+  case 4: conns += JSON::array({ 424242, anyUid() }); break;                          // dangling child
+  case 5: if (items.size() >= 2) items[rng.range(1, static_cast<int>(items.size()) - 1)]["pictUID"] = items[0]["pictUID"]; break;   // repeated uid
+  case 6: if (items.size() >= 2) items[rng.range(1, static_cast<int>(items.size()) - 1)]["position"] = items[0]["position"]; break; // occupied cell
+  case 7: shuffleArray(rng, conns); break;
+  case 8: shuffleArray(rng, items); if (rng.chance(1, 2)) shuffleArray(rng, conns); break;
+  case 9: if (!conns.empty()) { const auto e = conns[rng.below(static_cast<uint32_t>(conns.size()))]; conns += JSON::array({ e[1], e[0] }); if (rng.chance(1, 2)) conns += e; } break;  // reverse / repeated connection
+  case 10: { const auto u = anyUid(); conns += JSON::array({ u, u }); break; }       // self loop
+  case 11: if (const auto ops = opUids(); !ops.empty() && !conns.empty()) {          // a cycle through an operation: some ancestor gets the operation as a parent
+             const auto c = rng.pick(ops); int64_t anc = c;
+             for (int hop = rng.range(1, 3); hop > 0; --hop) for (const auto& e : conns) if (e[0] == anc) { anc = e[1].get<int64_t>(); break; }
+             conns += JSON::array({ anc, c }); } break;
+  case 12: if (const auto ops = opUids(); !ops.empty()) conns += JSON::array({ rng.pick(ops), anyUid() }); break;   // third parent
+  case 13: if (!items.empty()) { auto& it = items[rng.below(static_cast<uint32_t>(items.size()))];                  // unknown enum value / wrong JSON type
+             if (rng.chance(1, 2)) it["dataType"] = rng.chance(1, 2) ? JSON("what") : JSON(3);
+             else if (rng.chance(1, 2)) it["title"] = 5; else it["pictUID"] = "x"; } break;
+  case 14: if (!conns.empty()) { auto& e = conns[rng.below(static_cast<uint32_t>(conns.size()))]; if (rng.chance(1, 2)) e += 7; else e = JSON::array({ e[0] }); } break;  // pair with 3 / 1 elements
+  case 15: if (!conns.empty()) conns.erase(static_cast<size_t>(rng.below(static_cast<uint32_t>(conns.size())))); break;   // an operation with one parent
+  case 16: if (const auto ops = opUids(); !ops.empty()) for (auto& it : items) if (it["pictUID"] == ops[0]) {       // repeated equation key / translation key
+             it["attachedOperation"]["options"] = JSON{ {"type", "x"}, {"data", JSON::array({ JSON{ {"operand1", 3}, {"operand2", 4}, {"parameters", JSON{ {"equationType", "keepFirst"}, {"newTerm", "a"} }} },
+                                                                                                 JSON{ {"operand1", 3}, {"operand2", 5}, {"parameters", JSON{ {"equationType", "nope"}, {"newTerm", "b"} }} } })} };
+             it["attachedOperation"]["translations"] = JSON::array({ JSON::array({ JSON::array({ 1, 2 }), JSON::array({ 1, 3, 9 }) }) }); } break;
+  default: if (!items.empty()) { auto& it = items[rng.below(static_cast<uint32_t>(items.size()))];                  // a base gets connections: child without an operation handle
+             const auto u = it["pictUID"].get<int64_t>(); const auto v = anyUid(); if (u != v) conns += JSON::array({ u, v }); } break;
+  }
+  return doc;
+}
+static void ossCase(vh::Rng& rng, bool diamond) {
+  JSON j0;
+  { OSSchema o0; ossHistory(rng, o0, diamond); j0 = o0;
+    emit("c10 ossdocsave " + ossContent(o0), render(ossCanon(j0))); }
+  OSSchema o1;
+  ossEnrich(rng, j0).get_to(o1);
+  const JSON j1 = o1;
+  const auto text1 = j1.dump(4);
+  emit("c10 ossdocsave " + ossContent(o1), render(ossCanon(j1)));
+  ossDocLoad(j1);
+  ossDocLoad(ossMutate(rng, j1));
+  ossDocLoad(ossMutate(rng, j1));
+  OSSchema o2;
+  JSON::parse(text1).get_to(o2);
+  emit("c10 ossrt", [&] { const auto d = firstDiff(ossContent(o1), ossContent(o2)); return d.empty() ? std::string("1") : "0:" + d; }());
+  const JSON j2 = o2;
+  emit("c10 ossstable", [&] { const auto d = firstDiff(ossCanon(j1).dump(1), ossCanon(j2).dump(1)); return d.empty() ? std::string("1") : "0:" + d; }());
+  emit("c10 ossstableraw", text1 == j2.dump(4) ? "1" : "0:" + firstDiff(text1, j2.dump(4)));
+}
+
 int main() {
   vh::Rng rng(vh::seedFromEnv());
   const bool deep = vh::thorough();
@@ -433,5 +677,7 @@ int main() {
   const int NF = deep ? 3000 : 300, NM = deep ? 3000 : 300;
   for (int i = 0; i < NF; ++i) { const auto cs = rng.next(); vh::Rng sub(cs); vh::forkedEmit([&] { ccl::verif::Seed(static_cast<uint32_t>(cs)); formCase(sub); }, "c10 crash"); }
   for (int i = 0; i < NM; ++i) { const auto cs = rng.next(); vh::Rng sub(cs); vh::forkedEmit([&] { ccl::verif::Seed(static_cast<uint32_t>(cs)); modelCase(sub, i % 10 == 9); }, "c10 crash"); }
+  const int NO = deep ? 2000 : 250;
+  for (int i = 0; i < NO; ++i) { const auto cs = rng.next(); vh::Rng sub(cs); vh::forkedEmit([&] { ccl::verif::Seed(static_cast<uint32_t>(cs)); ossCase(sub, i % 5 == 0); }, "c10 crash"); }
   return 0;
 }
